@@ -145,6 +145,7 @@ typedef struct {
 	uint8_t skip_first;
 	uint16_t detach_mask;		/* threads never started (their pthread_create is made to fail) */
 	uint8_t pool_flags;		/* bit0 TP_S_F_BIND2CPU, bit1 TP_S_F_CLOEXEC */
+	uint8_t signals;		/* a helper thread keeps sending SIGUSR1 (handled, no-op) to the external caller threads while they are inside their calls */
 	uint8_t nbcasts;
 	c10_bcast b[C10_MAX_BCASTS];
 	tp_plans plans;
@@ -161,7 +162,7 @@ void c10_run(const c10_scn *scn, c10_out *out);
 /* ---------------- C11: pool life cycle ---------------- */
 enum { /* api ids logged in R_API_CALL / R_API_RET */
 	A_CREATE = 1, A_THREADS_CREATE, A_ATTACH_FIRST, A_SHUTDOWN, A_SHUTDOWN_WAIT, A_DESTROY, A_WAIT_EARLY, A_TCREATE_LATE,
-	A_ATTACH_LATE, A_WAIT_IN_POOL, A_DESTROY_IN_POOL, A_WAIT_ATTACHED
+	A_ATTACH_LATE, A_WAIT_IN_POOL, A_DESTROY_IN_POOL, A_WAIT_ATTACHED, A_DETACH_SELF
 };
 typedef struct {
 	uint8_t nthreads;	/* 1..16 */
@@ -178,6 +179,7 @@ typedef struct {
 	uint8_t late_calls;	/* bit0 threads_create after shutdown (EBUSY), bit1 attach_first after shutdown (EBUSY) */
 	uint8_t wait_mode;	/* 0 none, 1 outside, 2 from a pool thread first (EDEADLK) then outside, 3 two external threads at once,
 				 * 4 (with attach_first) the formerly attached thread itself, after tp_thread_attach_first() returned */
+	uint8_t detach_thread;	/* 0 none; k+1: worker k (created by tp_threads_create) calls tp_thread_dettach() on itself before the shutdown step */
 	uint8_t hooks_mode;	/* 0 both hooks installed, 1 only the start hook, 2 only the stop hook, 3 none */
 	uint8_t free_fd0;	/* descriptor 0 is closed while the pool lives (a daemon that closed stdin): the pool may own descriptor 0 */
 	uint8_t destroy_in_pool_first; /* tp_destroy from a pool thread before shutdown (must be EDEADLK) */
